@@ -311,6 +311,21 @@ def request_table(ctx):
                        'the caller is put into the queue of the name '
                        'without a check that it is not already waiting '
                        'there: a client that asks twice is queued twice')
+        # "the longest-waiting queued client becomes owner": a client that is
+        # already waiting and asks again (and still only waits) keeps its
+        # place - its entry is not removed and appended again
+        if atoms.get('QUEUED') and code == 2:
+            moved = [e[1][2][2] for e in iter_events(p.trace)
+                     if e[0] == 'call' and kind(e[1][2]) == 'attr' and
+                     _is_queue(e[1][2][1], table, name) and
+                     e[1][2][2] in ('remove', 'append', 'insert', 'pop')] + [
+                e[2] for e in iter_events(p.trace)
+                if e[0] == 'mutate' and _is_queue(_mrecv(e), table, name)]
+            ctx.ob('C13.D4', rq.qualname, 'waiting-client-keeps-its-place',
+                   not moved, 'a client that is already waiting and asks '
+                   'again is still only waiting, but the queue is changed on '
+                   'that path (%s): it loses its place to clients that '
+                   'queued after it' % moved)
         # list.remove drops the FIRST occurrence: removing the caller's old
         # waiting entry after the caller was written to the head removes the
         # head instead (the next waiter silently becomes owner)
